@@ -1207,6 +1207,8 @@ def build_unit(unit_path, repo=REPO):
                 # beginning with the anchor (the rest of the statement may change without losing the anchor)
                 a_, b_ = it.find_in_fn(args[0], args[1], int(args[2][1:]) if len(args) > 2 and args[2].startswith("#") else None)
                 j_, dep_ = b_, 0
+                if it.m[b_ - 1] == ";":
+                    j_ = b_ - 1
                 while j_ < len(it.m):
                     ch_ = it.m[j_]
                     if ch_ in "([{":
